@@ -441,7 +441,7 @@ func runBatchCall(sh *shard, o *optSet, zip bool, entries []*bEntry, entropy str
 				p = true
 			}
 		}()
-		ok, valid, err = ed25519.VerifyBatch(rr, keys, msgs, sigs, opts)
+		watch(sh.tr, "VerifyBatch", func() { ok, valid, err = ed25519.VerifyBatch(rr, keys, msgs, sigs, opts) })
 		return false
 	}()
 	hookMu.Lock()
